@@ -30,16 +30,24 @@ RULE = ('models: the 7 scipy-backed classes, GaussianKDE (bw_method in {default,
         'from 2e-7 to 1-2e-7 plus uniform draws plus the thresholds EPSILON, 1-EPSILON, 0, 1 and out-of-range '
         'values. A case is distinct by (class, options, data, points) and non-trivial when data are non-constant '
         'or the points straddle the constant.')
-PARTIAL = ['kde_ppf_bracket: the root-finder precondition is proved for 0 <= q <= Phi(5 sigma/h) - Phi(-5 sigma/h) only; '
-           'for q between cdf(U) and 1-EPSILON it is false (kde_ppf_bracket_full_counterexample; real-code finding '
-           'GaussianKDE.percent_point:q-above-cdf-at-upper-bound)',
-           'kde range: the CDF is proved >= -deficit, not >= 0 (bounded truncation, DESIGN section 8); the numeric '
-           'bound deficit <= Phi(-5 sqrt(4/5)) < 4e-6 for n >= 5, factor <= 1 is about the real ndtr and is '
-           'checked by the search, not proved',
-           'percent_point of GaussianKDE: existence of a root in the bracket and order of exact roots are proved; '
-           'that the vectorised root finders return it is property C18',
-           'scipy families: the laws are derived from the hypothesis structure Uni.FamilyCoherent (validated on '
-           'every fitted object), not from scipy\'s code']
+PARTIAL = ['kde_ppf_bracket_partial: the root-finder precondition is proved for 0 <= q <= Phi(5 sigma/h) - Phi(-5 sigma/h) '
+           'only; for q between cdf(U) and 1-EPSILON it is false (kde_ppf_bracket_full_counterexample; real-code '
+           'finding GaussianKDE.percent_point:q-above-cdf-at-upper-bound)',
+           'KDE range: "values in [0,1]" is false as stated (kde_cdf_nonneg_counterexample); proved instead: '
+           '-deficit <= cdf <= 1, cdf(L) = 0, deficit <= Phi(-5 sigma/h), and <= Phi(-5 sqrt(4/5)) for the unweighted '
+           'rules h = factor*sigma_(n-1), factor <= 1, n >= 5 (kde_deficit_small_factor); that Phi(-5 sqrt(4/5)) < 4e-6 is '
+           'a fact about the real ndtr, checked numerically by the search (DESIGN section 8). Limits are -deficit and '
+           '1-deficit, not 0 and 1 (kde_cdf_tendsto)',
+           'percent_point of GaussianKDE: existence of a root in the bracket (continuous Phi) and the order of exact '
+           'roots are proved; that the vectorised root finders return it is property C18 (their models are run on '
+           'the generated CDF in the tie)',
+           'scipy families: the laws are derived from the hypothesis structure Uni.FamilyCoherent at the ONE stored '
+           'parameter dict (validated on every fitted object), not from scipy\'s code',
+           'GaussianKDE.log_probability_density has no theorem: the inherited ScipyModel method calls the unbound '
+           'gaussian_kde.logpdf(X, dataset=...) and raises TypeError (real-code finding '
+           'GaussianKDE.log_probability_density:raises-TypeError); log_pdf_is_log covers the two `np.log(pdf)` defaults',
+           'constant model: log_probability_density is not replaced by _replace_constant_methods (the property does '
+           'not ask for it)']
 ASSUMPTIONS = ['real-number semantics of binary64 formulas (DESIGN 3.1)',
                'numpy elementwise ops = per-element scalar ops; np.std = population standard deviation; '
                'ndarray.dot = sum of products',
@@ -539,7 +547,7 @@ def scipy_fns(m):
 # ==================================================================================== tie (run)
 def run(ctx, lean):
     if lean is None:
-        for name in ('tv:ndtr', 'tv:constant-model', 'corr:constant-fit', 'tv:kde.bounds', 'tv:kde.cdf',
+        for name in ('tv:ndtr', 'tv:constant-model', 'corr:constant-fit', 'assume:kde-hypotheses', 'tv:kde.bounds', 'tv:kde.cdf',
                      'tv:kde.ppf-preprocessing', 'corr:kde.percent_point'):
             ctx.ob(name, False, 'tie', 'driver unavailable')
     else:
@@ -551,7 +559,7 @@ def run(ctx, lean):
         corr_kde_ppf(ctx, lean)
     corr_tables(ctx, lean)
     corr_forwarding(ctx)
-    corr_wrapper(ctx)
+    corr_wrapper(ctx, lean)
 
 
 def tv_ndtr(ctx, lean):
@@ -742,10 +750,20 @@ def kde_parts(m):
 
 def tv_kde(ctx, lean):
     rng = ctx.rng('kdecdf')
-    bad_b = bad_c = None
+    bad_b = bad_c = bad_h = None
     worst = 0.0
-    for spec, meta, data, m in kde_pool(ctx, 'kdepool', 30 * ctx.scale):
+    from scipy.special import ndtr
+    zs = np.array(sorted([rng.uniform(-40, 40) for _ in range(400)] + [-np.inf, np.inf, 0.0]))
+    nz = ndtr(zs)
+    if not (np.all(np.diff(nz) >= 0) and np.all(nz >= 0) and np.all(nz <= 1) and nz[0] == 0 and nz[-1] == 1):
+        bad_h = {'what': 'scipy.special.ndtr is not monotone into [0,1] on the grid'}
+    for spec, meta, data, m in kde_pool(ctx, 'kdepool', 50 * ctx.scale):
         xs, ws, cov = kde_parts(m)
+        # hypotheses of the KDE theorems on the real gaussian_kde object
+        if not (cov > 0 and len(xs) == len(ws) and np.all(ws >= 0) and abs(float(np.sum(ws)) - 1) <= 1e-12
+                and bit_equal(np.asarray(m._params['dataset'], dtype=float).ravel(), xs)) and bad_h is None:
+            bad_h = {'spec': spec, 'cov': cov, 'sum_w': float(np.sum(ws)), 'min_w': float(np.min(ws)),
+                     'lengths': [len(xs), len(ws)]}
         L, Up = m._get_bounds()
         sd = float(np.std(xs))
         r = lean_floats(lean, 'bounds ' + hx(np.asarray(m._params['dataset'], dtype=float).ravel()))
@@ -769,6 +787,8 @@ def tv_kde(ctx, lean):
                 bad_c = {'spec': spec, 'data': data.tolist(), 'x': p, 'real': float(a), 'model': b}
         if len(ctx.samples) < 5:
             ctx.sample({'op': 'kdecdf', 'spec': spec, 'n': len(xs), 'x': pts[0], 'real': float(real[0]), 'model': r[1][0]})
+    ctx.ob('assume:kde-hypotheses', bad_h is None, 'assumption',
+           bad_h or 'ndtr monotone into [0,1]; cov > 0, weights >= 0 summing to 1, model data = _params dataset')
     ctx.ob('tv:kde.bounds', bad_b is None, 'tie', bad_b or 'ok')
     ctx.ob('tv:kde.cdf', bad_c is None, 'tie', bad_c or f'max |delta| {worst:.2g}')
 
@@ -819,7 +839,14 @@ def corr_kde_ppf(ctx, lean):
     above cdf(upper bound) must fail with the same error kind in both"""
     rng = ctx.rng('kdeppf')
     bad = None
-    for spec, meta, data, m in kde_pool(ctx, 'kdepool2', 14 * ctx.scale):
+    pool = kde_pool(ctx, 'kdepool2', 24 * ctx.scale)
+    for _ in range(4 * ctx.scale):      # the corner where the window (cdf(U), 1-EPSILON) is non-empty
+        meta, data = gen_data(rng, kind=rng.choice(['normal', 'uniform', 'bimodal']), n=rng.choice([5, 6, 8]))
+        spec = {'cls': 'GaussianKDE', 'opts': {'bw_method': 1.0}}
+        m = fit(spec, data)
+        if not isinstance(m, tuple):
+            pool.append((spec, meta, data, m))
+    for spec, meta, data, m in pool:
         xs, ws, cov = kde_parts(m)
         if len(xs) > 120:
             continue
@@ -830,7 +857,7 @@ def corr_kde_ppf(ctx, lean):
             k = rng.choice([1, 3, 6])
             qs = [rng.choice([0.0, 1.0, EPS, 1 - EPS, 1e-6, 1 - 1e-6]) if rng.random() < 0.25 else rng.uniform(1e-4, 1 - 1e-4)
                   for _ in range(k)]
-            if rng.random() < 0.2:
+            if rng.random() < 0.2 or spec['opts'].get('bw_method') == 1.0:
                 qs.append(min(1 - 1.5 * EPS, max(0.5, cu + (1 - cu) * 0.5)))      # above cdf(U) when the window exists
             r1 = call(m.percent_point, np.array(qs), method=method)
             r2 = lean_floats(lean, f'kdeppf {method} {vc.f2h(cov)} {len(xs)} {hx(xs)} {hx(ws)} {hx(qs)}')
@@ -896,7 +923,7 @@ def corr_forwarding(ctx):
     rng = ctx.rng('fwd')
     bad = None
     abad = None
-    pool = fitted_pool(ctx, 'fwdpool', 4 * ctx.scale)
+    pool = fitted_pool(ctx, 'fwdpool', 6 * ctx.scale)
     for spec, meta, data, m in pool:
         cls = spec['cls']
         mc, p = type(m).MODEL_CLASS, m._params
@@ -949,7 +976,7 @@ def corr_forwarding(ctx):
     ctx.ob('assume:scipy-family-coherent', abad is None, 'assumption', abad or 'ok')
 
 
-def corr_wrapper(ctx):
+def corr_wrapper(ctx, lean):
     """every query on a fitted Univariate == the same query on its _instance (bitwise); unfitted raises"""
     rng = ctx.rng('wrapper')
     u = U()
@@ -991,6 +1018,24 @@ def corr_wrapper(ctx):
         ok = a[0] == b[0] and (bit_equal(a[1], b[1]) if a[0] == 'ok' else True)
         if not ok and bad is None:
             bad = {'spec': spec, 'query': 'sample', 'wrapper': str(a)[:120], 'instance': str(b)[:120]}
+    # `Univariate.sample` under the wrapper's own random_state (generated flag `wrapperSampleSeeded`): two
+    # identically seeded wrappers over an UNSEEDED candidate repeat each other iff the decorator is there
+    if lean is not None:
+        tables = dict(t.split('=') for t in lean.ask('uc tables').split())
+        outs = []
+        data = np.array([0.3, 1.1, 2.9, 4.2, 5.0, 7.7, 9.1])
+        st = np.random.get_state()
+        for k in range(2):
+            w = u.Univariate(candidates=[u.GaussianUnivariate], random_state=4321)
+            w.fit(data)
+            np.random.seed(1000 + k)          # different global streams
+            outs.append(np.asarray(w.sample(4), dtype=float))
+        np.random.set_state(st)
+        seeded = bit_equal(outs[0], outs[1])
+        ctx.case(('wrapper-seeded', seeded))
+        if tables.get('wrapseed') != str(seeded).lower() and bad is None:
+            bad = {'what': 'Univariate.sample under the wrapper random_state', 'real': seeded,
+                   'model': tables.get('wrapseed')}
     ctx.ob('corr:wrapper-delegation', bad is None, 'tie', bad or 'bit-identical')
 
 
@@ -1050,7 +1095,7 @@ def examine(ctx, spec, data, rng, deep, counts):
 def search(ctx, deep):
     rng = ctx.rng('search')
     counts = {'checks': 0, 'failures': 0}
-    reps = 10 if deep else 1
+    reps = 10 if deep else 2
     for rep in range(reps):
         for cls in ALL + ('Univariate',):
             for j in range(2):
